@@ -93,7 +93,7 @@ def run(rep: Report, tier: str):
     rep.rule("C12.ctx-restores-what-it-clobbers", "the context manager restores what its own __enter__ rebinds", 1)
     rep.rule("C12.ctx-restores-what-can-change", "the context manager saves/restores every binding a lifecycle operation may change while it is open", 1)
     rep.rule("C12.armed-means-checked", "every value an arming operation binds is a checker", 3)
-    rep.rule("C12.nested-protection", "the checked loader's real load goes through the hooked pickle.loads", 1)
+    rep.rule("C12.nested-protection", "the checked loader's real load goes through the hooked pickle.loads; the context factory hands out a new manager per use", 1)
     rep.rule("C12.single-owner", "only hook.py/context.py rebind pickle entry points", 1)
 
     hook = repo.module("fickling.hook")
@@ -302,6 +302,16 @@ def run(rep: Report, tier: str):
         else:
             rep.bad("C12.nested-protection", ld.qualname, f"unmediated-real-load:{q if isinstance(q, str) else '?'}", f"the checked loader unpickles through `{src(c.func)}`; with the safe ML environment armed underneath, entering a safety context (or arming the global check) then bypasses the allowlist - an enclosing protection is dropped", ld.file, c.lineno)
 
+    # the context manager keeps its snapshot on the instance: nested `with fickling.check_safety():` blocks are only
+    # independent if every call of the factory hands out a new manager
+    fac = repo.lookup("fickling.context.check_safety")
+    if isinstance(fac, FuncInfo):
+        rets = [n.value for n in body_walk(fac.node) if isinstance(n, ast.Return)]
+        fresh = bool(rets) and all(isinstance(r, ast.Call) and (repo.resolve_expr(fac.module, r.func, set(fac.params())) or "") == ctx.qualname for r in rets)
+        if fresh:
+            rep.ok("C12.nested-protection", fac.qualname, "every call returns a new FicklingContextManager (nested blocks keep separate snapshots)", f"{fac.file}:{fac.line}")
+        else:
+            rep.bad("C12.nested-protection", fac.qualname, "factory-returns-shared-manager", f"check_safety() returns {[src(r) for r in rets]}, not a new FicklingContextManager per call: nested `with fickling.check_safety():` blocks share one snapshot slot, the inner entry overwrites the outer's saved bindings with the already-hooked ones, and the outermost exit leaves the hook armed", fac.file, fac.line)
     # ---- single owner
     owners = {"fickling.hook", "fickling.context"}
     n_other = 0
